@@ -34,6 +34,17 @@ impl Driven for D {
          _ => panic!("verif harness: unknown relation {}", rel),
       }
    }
+   fn clear(&mut self, rel: &str) {
+      match rel {
+         "w" => { self.0.w = Default::default(); },
+         "mn" => { self.0.mn = Default::default(); },
+         "mx" => { self.0.mx = Default::default(); },
+         "sm" => { self.0.sm = Default::default(); },
+         "tot" => { self.0.tot = Default::default(); },
+         "lo" => { self.0.lo = Default::default(); },
+         _ => panic!("verif harness: unknown relation {}", rel),
+      }
+   }
    fn run(&mut self) { self.0.run(); }
    fn dump(&self) -> Value {
       let mut m: Vec<(String, Value)> = vec![];
